@@ -577,5 +577,66 @@ func init() {
 			}())
 		emitList("usedDeltaLoop", "updateGroupDeltaUsedNoLock: operands of addUsedNonNegativeNoLock",
 			callsWithGuards(get(core, "GroupQuotaManager", "updateGroupDeltaUsedNoLock"), "addUsedNonNegativeNoLock"))
+
+		// ---- feature gate ElasticQuotaGuaranteeUsage ----
+		// every function of the plugin and of its core package that consults the gate ("dir: Recv.func", sorted)
+		var sites []string
+		for _, d := range []string{plug, core} {
+			files := e.dir(d)
+			for _, f := range files {
+				for _, decl := range f.Decls {
+					fd, ok := decl.(*ast.FuncDecl)
+					if !ok || fd.Body == nil {
+						continue
+					}
+					hit := false
+					ast.Inspect(fd.Body, func(n ast.Node) bool {
+						if se, ok := n.(*ast.SelectorExpr); ok && se.Sel.Name == "ElasticQuotaGuaranteeUsage" {
+							hit = true
+						}
+						return true
+					})
+					if !hit {
+						continue
+					}
+					name := fd.Name.Name
+					if fd.Recv != nil && len(fd.Recv.List) == 1 {
+						t := fd.Recv.List[0].Type
+						if st, ok := t.(*ast.StarExpr); ok {
+							t = st.X
+						}
+						name = raw(t) + "." + name
+					}
+					sites = append(sites, d[strings.LastIndex(d, "/")+1:]+": "+name)
+				}
+			}
+		}
+		sort.Strings(sites)
+		cur = nil
+		emitList("guaranteeGateSites", "the functions of the plugin package and of core that consult the feature gate ElasticQuotaGuaranteeUsage, sorted", sites)
+		// NewQuotaInfoFromQuota: every assignment of the allow-lent flag (guards => value) and the operands of NewQuotaInfo
+		var lent []string
+		if nq := get(core, "", "NewQuotaInfoFromQuota"); nq != nil {
+			cur = nil // operands as written
+			walk(nq.Body, func(n ast.Node, stack []ast.Node) {
+				switch x := n.(type) {
+				case *ast.AssignStmt:
+					for i, l := range x.Lhs {
+						if id, ok := l.(*ast.Ident); ok && id.Name == "allowLentResource" && i < len(x.Rhs) {
+							lent = append(lent, strings.Join(guards(n, stack), " ; ")+" => "+raw(x.Rhs[i]))
+						}
+					}
+				case *ast.CallExpr:
+					if callName(x) == "NewQuotaInfo" {
+						var args []string
+						for _, a := range x.Args {
+							args = append(args, raw(a))
+						}
+						lent = append(lent, "NewQuotaInfo: "+strings.Join(args, " | "))
+					}
+				}
+			})
+		}
+		emitList("lentFromObject", "NewQuotaInfoFromQuota: guards => value of every assignment of allowLentResource, then the operands of NewQuotaInfo", lent)
 	}
 }
